@@ -65,6 +65,8 @@ def build_flags():
     if _flags_cache is not None:
         return _flags_cache
     bdir = os.path.join(REPO, "_build")
+    if REPO != "/repo" and not os.path.exists(os.path.join(bdir, "build.ninja")):
+        bdir = "/repo/_build"
     scratch = None
     if not os.path.exists(os.path.join(bdir, "build.ninja")):
         scratch = tempfile.mkdtemp(prefix="cmiv-cfg-")
@@ -107,6 +109,9 @@ def build_flags():
             i += 1
         if not any(f.startswith("-std=") for f in flags):
             flags.append("-std=c++11")
+        if REPO != "/repo":
+            # analysing a scratch copy of the sources: same flags, its src directory first
+            flags = [("-I" + SRC) if f == "-I/repo/src" else f for f in flags]
         if scratch:
             # generated headers live in the scratch dir: copy them next to the cache
             gen = os.path.join(BUILD, "gen")
@@ -176,6 +181,10 @@ def ensure_dump(log=None):
     d = os.path.join(CACHE, key)
     done = os.path.join(d, "DONE")
     if os.path.exists(done):
+        try:
+            os.utime(d, None)
+        except OSError:
+            pass
         return d
     t0 = time.time()
     tmpd = tempfile.mkdtemp(prefix="cmiv-dump-", dir=CACHE if os.path.isdir(CACHE) else None) \
@@ -213,7 +222,7 @@ def ensure_dump(log=None):
     return d
 
 
-def _prune(keep, maxn=3):
+def _prune(keep, maxn=8):
     try:
         ents = [(os.path.getmtime(os.path.join(CACHE, e)), e) for e in os.listdir(CACHE)]
     except OSError:
